@@ -1,4 +1,5 @@
 #![feature(step_trait)]
+#![feature(abi_x86_interrupt)]
 #![allow(clippy::all)]
 //! Correspondence harness: runs the real x86_64 crate (path = /repo, built from the working
 //! tree on every check with --cfg x86_64_verif) on cases given as integer lists.
@@ -8,6 +9,7 @@
 mod eng_addr;
 mod eng_mach;
 mod eng_pte;
+mod eng_tbl;
 mod gen_addr;
 mod gen_mach;
 mod gen_tbl;
@@ -26,6 +28,7 @@ fn main() {
                 "addr" => eng_addr::run,
                 "pte" => eng_pte::run,
                 "mach" => eng_mach::run,
+                "tbl" => eng_tbl::run,
                 _ => panic!("unknown engine"),
             };
             for_each_line(|l| fmt_out(&f(&parse_line(l))));
@@ -57,7 +60,7 @@ fn main() {
             use x86_64::instructions::port::Port;
             use x86_64::registers::control::{Cr3, Cr4, Cr4Flags};
             use x86_64::registers::model_specific::{Efer, Msr};
-            softcpu::install();
+            softcpu::install_once();
             let c = softcpu::cpu();
             c.reset();
             c.cr[3] = 0x1005;
